@@ -777,4 +777,70 @@ theorem lloss_zero_iff' (psd : ℝ → ℝ) (n : ℝ) (hn : 0 < n) (fs ps : List
         have e2 : lorentzianLoss psd n fs ps = 0 := (ih ps hps).mpr fun x hx => h x (by simp [hx])
         rw [e2, e3]; simp
 
+/-! ## Spectra of the form `D·A(f)/((f_c + B(f))² + C(f))` (hydrodynamic model, fixed filter) -/
+
+/-- specification-side family: `A`, `B`, `C` are known functions of frequency (they depend on the
+    bead, the medium, the wall and a fixed filter, not on the fitted parameters) -/
+noncomputable def ratPsd (A B C : ℝ → ℝ) (f fc D : ℝ) : ℝ := D * A f / ((fc + B f) ^ 2 + C f)
+
+/-- three frequencies whose rows `(B² + C, B, 1)` are linearly independent determine `(f_c, D)` -/
+theorem ratPsd_identifiable' (A B C : ℝ → ℝ) (fc D fc' D' f1 f2 f3 : ℝ) (hD : D ≠ 0)
+    (hA : A f1 ≠ 0 ∧ A f2 ≠ 0 ∧ A f3 ≠ 0) (hC : 0 < C f1 ∧ 0 < C f2 ∧ 0 < C f3)
+    (hdet : (B f1 ^ 2 + C f1) * (B f2 - B f3) - B f1 * ((B f2 ^ 2 + C f2) - (B f3 ^ 2 + C f3))
+      + ((B f2 ^ 2 + C f2) * B f3 - (B f3 ^ 2 + C f3) * B f2) ≠ 0)
+    (e1 : ratPsd A B C f1 fc' D' = ratPsd A B C f1 fc D)
+    (e2 : ratPsd A B C f2 fc' D' = ratPsd A B C f2 fc D)
+    (e3 : ratPsd A B C f3 fc' D' = ratPsd A B C f3 fc D) : fc' = fc ∧ D' = D := by
+  have cross : ∀ f, A f ≠ 0 → 0 < C f → ratPsd A B C f fc' D' = ratPsd A B C f fc D →
+      (D' - D) * (B f ^ 2 + C f) + (2 * (D' * fc - D * fc')) * B f + (D' * fc ^ 2 - D * fc' ^ 2) = 0 := by
+    intro f ha hc h
+    unfold ratPsd at h
+    have h1 : (fc + B f) ^ 2 + C f ≠ 0 := by positivity
+    have h2 : (fc' + B f) ^ 2 + C f ≠ 0 := by positivity
+    rw [div_eq_div_iff h2 h1] at h
+    have : D' * ((fc + B f) ^ 2 + C f) = D * ((fc' + B f) ^ 2 + C f) := by
+      apply mul_left_cancel₀ ha
+      linear_combination h
+    linear_combination this
+  have c1 := cross f1 hA.1 hC.1 e1
+  have c2 := cross f2 hA.2.1 hC.2.1 e2
+  have c3 := cross f3 hA.2.2 hC.2.2 e3
+  obtain ⟨w1, hw1⟩ : ∃ w, w = B f1 ^ 2 + C f1 := ⟨_, rfl⟩
+  obtain ⟨w2, hw2⟩ : ∃ w, w = B f2 ^ 2 + C f2 := ⟨_, rfl⟩
+  obtain ⟨w3, hw3⟩ : ∃ w, w = B f3 ^ 2 + C f3 := ⟨_, rfl⟩
+  rw [← hw1] at c1 hdet; rw [← hw2] at c2 hdet; rw [← hw3] at c3 hdet
+  have hX : (D' - D) * (w1 * (B f2 - B f3) - B f1 * (w2 - w3) + (w2 * B f3 - w3 * B f2)) = 0 := by
+    linear_combination (B f2 - B f3) * c1 - (B f1 - B f3) * c2 + (B f1 - B f2) * c3
+  have hY : (2 * (D' * fc - D * fc')) * (w1 * (B f2 - B f3) - B f1 * (w2 - w3) + (w2 * B f3 - w3 * B f2)) = 0 := by
+    linear_combination (-(w2 - w3)) * c1 + (w1 - w3) * c2 - (w1 - w2) * c3
+  have hDD : D' = D := by
+    rcases mul_eq_zero.mp hX with h | h
+    · linarith
+    · exact absurd h hdet
+  have hY' : D' * fc - D * fc' = 0 := by
+    rcases mul_eq_zero.mp hY with h | h
+    · linarith
+    · exact absurd h hdet
+  refine ⟨?_, hDD⟩
+  rw [hDD] at hY'
+  have : D * (fc - fc') = 0 := by linear_combination hY'
+  rcases mul_eq_zero.mp this with h | h
+  · exact absurd h hD
+  · linarith
+
+/-- the hydrodynamically correct spectrum has this form, with `A = Re γ/π²`, `B = f·(Im γ − f/f_m)`,
+    `C = (f·Re γ)²` (`γ` = `calculate_complex_drag`, `f_m` = `calculate_dissipation_frequency`) -/
+theorem hydroPsd_form (f fc D gamma0 r rhoS rhoB : ℝ) (dist : Option ℝ) :
+    hydroPsd f fc D gamma0 r rhoS rhoB dist
+      = ratPsd (fun f => (complexDrag f gamma0 rhoS r dist).1 / Real.pi ^ 2)
+          (fun f => f * ((complexDrag f gamma0 rhoS r dist).2 - f / dissipationFrequency gamma0 r rhoB))
+          (fun f => (f * (complexDrag f gamma0 rhoS r dist).1) ^ 2) f fc D := by
+  simp only [hydroPsd, ratPsd, RealLike.pi]
+  ring
+
+theorem complexDrag_bulk_re (f g rho r : ℝ) :
+    (complexDrag f g rho r none).1 = 1 + Real.sqrt (f / (g / (6 * Real.pi * rho * r) / (Real.pi * (r * r)))) := by
+  simp only [complexDrag, RealLike.sqrt, RealLike.pi, one_lit]
+  norm_num
+
 end Verif.C11
